@@ -255,7 +255,7 @@ def main(argv=None):
         if sig not in known_hits:
             print(f'note: known finding {sig} did not manifest in this run')
 
-    rdir = os.path.join(VERIF, 'replays', prop)
+    rdir = os.path.join(os.environ.get('VERIF_REPLAY_DIR') or os.path.join(VERIF, 'replays'), prop)
     vlines = []
     for f in new:
         os.makedirs(rdir, exist_ok=True)
